@@ -96,6 +96,64 @@ CHECKS = {
             "re-checked and refused registrations must leave all eight registry maps unchanged.",
             "Naming oracle is one-directional (clearly illegal refused, clearly legal accepted, grey zone unasserted).",
             "DESIGN.md section 2, C19"),
+    "C05": ("exploration", "generated versioning histories with a substituted clock, interpreted next to a version-chain model",
+            "Histories of up to 30 operations (new_version with legal change sets, None removals, custom properties, caller-supplied "
+            "modified, attempts on unmodifiable / id-contributing properties, revoke, marking calls, serialize->parse, in-place edits of "
+            "results) on objects and dicts of both versions; the library clock is set before every step relative to the previous modified "
+            "time (earlier, equal, +1..999 us, +1 ms, later); the chain model demands identity preservation, exact change sets, untouched "
+            "originals and strictly increasing *serialized* modified times.",
+            "Trusts oracle/tsref.py and oracle/markmodel.py chain helpers; years <= 9998.",
+            "DESIGN.md section 2, C05"),
+    "C07": ("exploration", "generated marking histories interpreted next to a set-of-(selector,kind,marking) model and a component-wise path tree",
+            "Histories of up to 25 add/remove/set/clear/get/is_marked calls (functions and methods, ids / objects / language tags, all "
+            "flag combinations) on SDO/SROs of both versions, plain dicts and marking-definitions, built so that sibling names are "
+            "character prefixes of one another; after every step the pair set read back equals the model, queries agree with the path-tree "
+            "answer and with one another, results are valid new versions with unchanged non-marking content, inputs are unchanged.",
+            "Trusts oracle/markmodel.py (self-tested); outcomes the documentation leaves open are all accepted.",
+            "DESIGN.md section 2, C07"),
+    "C08": ("exploration", "every path and 12 kinds of near-miss path of generated subjects, at construction/parse and in the five marking functions",
+            "For each generated subject (falsy values, repeated elements, embedded objects, extensions, hashes, mixed-case keys, 2.0 "
+            "containers; as object and dict) every path of its JSON form must be accepted at construction, at parse and by "
+            "add/remove/clear/get/is_marked, and every near-miss (absent property, index = length, wrong nesting, misspelling, character "
+            "prefix ...) must be refused.",
+            "Trusts oracle/markmodel.py path enumerator and independent resolver; paths existing only through defaulted properties are in neither set.",
+            "DESIGN.md section 2, C08"),
+    "C09": ("exploration", "grammar-generated pattern pairs/triples/collections: relation laws, documented rewrites (metamorphic), soundness against an independent bounded-universe evaluator",
+            "Patterns over a bounded vocabulary (so meaning is decidable) are paired with documented rewrites, semantic mutations and "
+            "independent patterns; totality, reflexivity, symmetry, transitivity, recognition of each documented law, "
+            "find_equivalent_patterns consistency, and soundness (reported-equivalent patterns match the same observation sequences of a "
+            "bounded universe under oracle/patsem.py) are asserted. Soundness is relative to the universe (<= 3 observations, pool constants).",
+            "Trusts oracle/patsem.py's stated reading of the patterning semantics (every documented law is cross-checked to hold in it) and the third-party stix2-patterns validator.",
+            "DESIGN.md section 2, C09"),
+    "C10": ("exploration", "grammar-generated pattern ASTs printed with random legal layout; library parse/print compared structurally by an independent parser; model-built patterns round-tripped",
+            "ASTs from the stix2-patterns 2.1 grammar (2.0 for 1 in 5) with unrestricted vocabulary are printed by an independent printer, "
+            "approved by the third-party validator, parsed and re-printed by the library; the result must be valid, structurally equal to "
+            "the generator's tree (every comparison, negation, operator, constant, path step, qualifier, grouping) per an independent "
+            "recursive-descent parser, and a print fixed point; trees assembled through stix2.patterns classes must print to text that "
+            "parses back to the same structure.",
+            "Trusts gen/patterns.py parser/printer (self-tested, cross-checked with the validator on every case) and the stix2-patterns validator.",
+            "DESIGN.md section 2, C10"),
+    "C11": ("exploration", "generated add/save/load/reopen histories driving MemoryStore, FileSystemStore and a list model in lock-step",
+            "Histories of up to 14 steps over 3-6 ids x 1-4 versions (all object classes incl. dict-kept custom types, several timestamp "
+            "spellings, out-of-order versions) using all seven documented input forms, save_to_file/load_from_file, re-opened "
+            "FileSystemSource, bundlify; after every step get / all_versions / query of both stores equal the list model keyed by "
+            "(id, modified instant).",
+            "Trusts oracle/storemodel.py and oracle/tsref.py; DataSourceError on re-adding an existing version to the filesystem sink is the documented refusal.",
+            "DESIGN.md section 2, C11"),
+    "C12": ("exploration", "generated populations x filter sets x delivery routes, differential against a naive reference evaluator + metamorphic laws",
+            "Populations of up to 30 objects x 4-10 filter sets (every operator on every property kind with type-compatible values; "
+            "type/id filters weighted, repeated, contradictory) delivered as query argument, attached to the source, attached to / passed "
+            "down by composites, on MemorySource, FileSystemSource and a composite; results equal the naive evaluator; added filter => "
+            "subset, conjunction = intersection, route independence, filesystem = memory.",
+            "Trusts oracle/storemodel.py's reading of the documented operator semantics; type-incompatible comparisons are outside the domain.",
+            "DESIGN.md section 2, C12"),
+    "C18": ("exploration", "generated partitions of a population over member sources x attachment orders x navigation probes, against a list model of the union",
+            "Populations with relationship graphs (self-loops, parallel edges, dangling ends, several versions) are placed with overlap in "
+            "2-4 memory/filesystem members, attached in all/4 orders, optionally nested; get, all_versions, query with filters on "
+            "composite/member/argument, relationships, related_to, creator_of through composite, store and Environment equal a scan of "
+            "the union.",
+            "Trusts oracle/storemodel.py; multiplicity through plain sources is compared as sets (not fixed by the statement).",
+            "DESIGN.md section 2, C18"),
 }
 
 NOT_YET = {}
